@@ -42,6 +42,7 @@ CONSTANTS
                 \*   (onoffpb, lightpb, ... as the code has it: harmless as long as nobody writes it)
   Mutant        \* "none", or a seeded deviation the model must catch: "getNoRLock" | "collectNoLock" | "hasNoLock"
                 \*   | "optionNormalisedInPlace" (the library normalises the CALLER's update mask when the option is applied)
+                \*   | "metadataAppendedInPlace" (a later SetHeader appends into the map an earlier one stored)
 
 All  == 1..(2 * N)
 Main == 1..N
@@ -78,7 +79,7 @@ L(p, s) == "L" \o ToString(p) \o s       \* parts of the bus listener of process
 
 IC(i, s) == "c" \o ToString(i) \o s      \* parts of instance i of a type built from the package defaults
 Insts == {1, 2}
-PtrNames == { "v.value", "c.byId", "r.registry" } \cup { IC(i, ".byId") : i \in Insts }
+PtrNames == { "v.value", "c.byId", "r.registry", "s.hdr" } \cup { IC(i, ".byId") : i \in Insts }
 Objs == { "v.mu", "v.pubMu", "v.bus", "c.mu", "c.pubMu", "c.rngMu", "c.bus", "b.lm", "r.mu",
           "s.mu", "s.headerM", "s.headerC", "s.send", "s.closed", "s.ctx", "g.resp" }
         \cup UNION { { L(p, ".m"), L(p, ".chan"), L(p, ".ctx") } : p \in Main }
@@ -198,6 +199,21 @@ StreamClient(p) ==
 StreamClientCancel(p) ==
   << Acc(Nop, {}, {"s.header", "s.trailer", "s.closeErr"}), Spawn(2), Rel("s.ctx") >> \o G({"s.closeErr"}, {}) \o G({"s.trailer"}, {})
 
+\* stream.go joinHeader / getHeader: every SetHeader/SendHeader builds a NEW map (metadata.Join) and stores it in
+\* s.header under s.mu; the client's Header() fetches the pointer under s.mu and clones the map it points to OUTSIDE
+\* the lock.  That is race free only because a stored map is never written again: a SetHeader after the headers were
+\* sent (this stream accepts it) replaces the map.  The seeded deviation appends into the stored map instead.
+StreamServerLate(p) ==
+  << [Acc(Lock("s.mu"), {"s.hdr"}, {"hm1"}) EXCEPT !.set = <<"s.hdr", "hm1">>], Unlock("s.mu"),                 \* SetHeader
+     Lock("s.headerM"), [Acc(Lock("s.mu"), {"s.hdr", "hm1"}, {"hm2"}) EXCEPT !.set = <<"s.hdr", "hm2">>], Unlock("s.mu"),
+     Rel("s.headerC"), Unlock("s.headerM"),                                                                      \* SendHeader
+     IF Mutant = "metadataAppendedInPlace" THEN Acc(Lock("s.mu"), {"s.hdr", "hm2"}, {"hm2"})
+     ELSE [Acc(Lock("s.mu"), {"s.hdr", "hm2"}, {"hm3"}) EXCEPT !.set = <<"s.hdr", "hm3">>],                      \* a late SetHeader
+     Unlock("s.mu") >>
+StreamClientPeek(p) ==
+  << Acc(Nop, {}, {"s.hdr"}), Spawn(2), Acq("s.headerC", 1), Hold(Lock("s.mu"), "s.hdr"), Unlock("s.mu"),
+     [Nop EXCEPT !.rdh = TRUE] >>                                                                                 \* cloneMD outside the lock
+
 \* pkg/group/exec.go:176 executeEach: one goroutine per member, results come back over a channel (buffered: a send
 \* needs no receiver); only the caller writes the results slice (:104)
 GroupMember(p) == << Acc(Nop, {"g.members"}, {M(p)}), Pub(Rel("g.resp"), M(p)) >>
@@ -214,6 +230,7 @@ Steps(op, p) ==
     [] op = "IGen1" -> IGen(p, 1) [] op = "IGen2" -> IGen(p, 2) [] op = "IGet1" -> IGet(p, 1) [] op = "IGet2" -> IGet(p, 2)
     [] op = "ISet1" -> ISet(p, 1) [] op = "ISet2" -> ISet(p, 2)
     [] op = "OSet1" -> OSet(p, 1) [] op = "OSet2" -> OSet(p, 2) [] op = "OGet1" -> OGet(p, 1) [] op = "OGet2" -> OGet(p, 2)
+    [] op = "StreamServerLate" -> StreamServerLate(p) [] op = "StreamClientPeek" -> StreamClientPeek(p)
     [] op = "GroupMember" -> GroupMember(p) [] op = "GroupAll" -> GroupCaller(2) [] op = "GroupFast" -> GroupCaller(1)
 HelperSteps(op, p) == IF op \in {"BListen", "BCancel"} THEN ListenHelper(p) ELSE <<>>
 
@@ -224,7 +241,8 @@ Alphabet == CASE Family = "val"  -> {"VGet", "VSet", "VPull"}
               [] Family = "dflt" -> {"IGen1", "IGen2", "IGet1", "IGet2", "ISet1", "ISet2"}
               [] Family = "opt"  -> {"OSet1", "OSet2", "OGet1", "OGet2"}
               [] OTHER -> {}
-Scenarios == CASE Family = "stream" -> { <<"StreamClient", "StreamServer">>, <<"StreamClientCancel", "StreamServer">> }
+Scenarios == CASE Family = "stream" -> { <<"StreamClient", "StreamServer">>, <<"StreamClientCancel", "StreamServer">>,
+                                         <<"StreamClientPeek", "StreamServerLate">> }
                [] Family = "group"  -> { <<"GroupAll", "GroupMember", "GroupMember">>, <<"GroupFast", "GroupMember", "GroupMember">> }
                [] OTHER -> [Main -> Alphabet]
 \* goroutines that exist only once somebody starts them
@@ -248,7 +266,7 @@ Init ==
   /\ lastW = [x \in {"m0"} |-> [q |-> 0, c |-> 0]]     \* functions from the locations touched so far; the stored
   /\ lastR = [x \in {"m0"} |-> Zero]                   \* message m0 was built before any process started
   /\ ptr = [x \in PtrNames |-> IF \E i \in Insts : x = IC(i, ".byId") THEN InitialOf(CHOOSE i \in Insts : x = IC(i, ".byId"))
-                                ELSE "m0"]      \* what is stored before the processes start
+                                ELSE IF x = "s.hdr" THEN "nil" ELSE "m0"]      \* what is stored before the processes start
   /\ held = [p \in All |-> "nil"]
   /\ sent = [o \in Objs |-> {}]
   /\ registered = {} /\ snap = [p \in All |-> {}]
